@@ -75,6 +75,30 @@ func editCorpus(bases []string, stride int) []string {
 	return dedupe(out)
 }
 
+// insertCorpus: a token of a small alphabet inserted before, or replacing, every token.
+func insertCorpus(bases []string, stride int) []string {
+	alphabet := []string{",", "=", "max", "from", "to", "(", ")", "{", "}", "$x", "@a", "1", "+", "remaining", "kept", "*", "[", "]", "1/2", "\"s\""}
+	var out []string
+	n := 0
+	for bi, b := range bases {
+		toks := scriptTokens(b)
+		for i := range toks {
+			if isSpaceTok(toks[i]) {
+				continue
+			}
+			for ai, a := range alphabet {
+				n++
+				if stride > 1 && (n+bi+ai)%stride != 0 {
+					continue
+				}
+				out = append(out, strings.Join(toks[:i], "")+a+" "+strings.Join(toks[i:], ""))
+				out = append(out, strings.Join(toks[:i], "")+a+strings.Join(toks[i+1:], ""))
+			}
+		}
+	}
+	return dedupe(out)
+}
+
 var extraTexts = []string{
 	"", " ", "\n", "vars", "vars {", "vars { }", "vars { number }", "vars { number = balance(@a, USD) }", "vars { $x }", "vars { number $x = }",
 	"vars { monetary $m = balance( }", "vars { monetary $m = (@a) }", "send", "send [", "send [USD", "send [USD 1] (", "send [USD 1] ( source", "send [USD 1] ( source = ",
@@ -83,6 +107,9 @@ var extraTexts = []string{
 	"send [USD 1] ( source = @a destination = { max to @b remaining } )", "send [USD 1] ( source = @a destination = { 1/2 to 1/2 kept } )",
 	"save", "save [USD 1]", "save [USD 1] from", "save from @a", "set_tx_meta(", "set_tx_meta(,)", "set_tx_meta(\"k\",", "f(", "f()", "()", "1/0", "send [USD 1/0] (source=@a destination=@b)",
 	"send [USD 1] ( source = { 1/0 from @a remaining from @b } destination = @c )", "send [USD 1] ( source = @a destination = { 0/0 to @b remaining kept } )",
+	"set_tx_meta(\"k\", 1, max, 2)", "set_tx_meta(\"k\", 1, ,, 2)", "set_tx_meta(\"k\", 1, =, 2, 3)", "set_account_meta(@a, \"k\", 1, from to, 2)", "vars { monetary $b = balance(@a, USD/2, =, 3) }\nsend $b (source=@world destination=@d)",
+	"set_tx_meta(\"k\", \"a\" + )", "set_tx_meta(\"k\", @a - ", "set_account_meta(@a, \"k\", USD/2 - )", "foo(10% + )", "vars { account $acc }\nset_tx_meta(\"k\", $acc + )", "set_tx_meta(\"k\", 1 + )", "set_tx_meta(\"k\", + 1)",
+	"send [USD 1 + ] (source=@a destination=@b)", "send [USD 1] (source = max [USD 1] + from @a destination=@b)", "send [USD 1] (source=@a destination={ max [USD 1] - to @b remaining kept })",
 	"send $x ( source = $y destination = $z )", "vars { account $a account $a } send [USD *] ( source = $a destination = $a )",
 	"send [USD 1] ( source = @a destination = @b ) é", "set_tx_meta(\"é\", \"ü\")", "vars { string $é }", "send [USD 1 (", "send ] (", "} } }", "$ $ $", "@ @", "[ ] [", "max max max", "remaining", "kept",
 }
@@ -94,7 +121,11 @@ func c18Texts(tier string) []string {
 		bases = append(append([]string{}, validTemplates...), brokenTemplates...)
 		stride = 1
 	}
-	return dedupe(append(editCorpus(bases, stride), extraTexts...))
+	istride := 97
+	if tier == "thorough" {
+		istride = 7
+	}
+	return dedupe(append(append(editCorpus(bases, stride), insertCorpus(bases, istride)...), extraTexts...))
 }
 
 func init() {
@@ -111,8 +142,8 @@ func init() {
 			return cases
 		},
 		Bounds: stdBounds(
-			map[string]interface{}{"texts": "every 9th prefix / token deletion / token duplication / bracket edit of 25 scripts + 55 hand-written broken texts", "cursor": "every (line, character) with 0 <= line, character <= 2^30 (symbolic)", "map_orders": "every iteration order of the checker's maps (<= 3 entries; larger: identity/reverse/rotation)"},
-			map[string]interface{}{"texts": "every prefix / token deletion / token duplication / bracket edit of 60 scripts + 55 broken texts", "cursor": "symbolic", "map_orders": "all (<= 3 entries)"}),
+			map[string]interface{}{"texts": "every 9th prefix / token deletion / token duplication / bracket edit and every 97th insertion/replacement of a token from a 20-token alphabet, of 27 scripts, + 70 hand-written broken texts", "cursor": "every (line, character) with 0 <= line, character <= 2^30 (symbolic)", "map_orders": "every iteration order of the checker's maps (<= 3 entries; larger: identity/reverse/rotation)"},
+			map[string]interface{}{"texts": "every prefix / token deletion / token duplication / bracket edit and every 7th insertion/replacement from a 20-token alphabet, of 78 scripts, + 70 broken texts", "cursor": "symbolic", "map_orders": "all (<= 3 entries)"}),
 		Assumptions: []string{
 			"SCOPED CLAIM: the text dimension is a bounded corpus (the map from text to partial tree is ANTLR error recovery, outside the encoding); the solver quantifies over cursor positions and map iteration orders on each parser-produced tree",
 			"parser.Parse runs natively; a native parser panic on a corpus text is skipped here (it belongs to C14)",
